@@ -329,14 +329,19 @@ func contract_MarshalOptions_marshalField(o MarshalOptions, b []byte, fd protore
 
 // checkInitializedSlow: a missing required field of this message is reported (each required number
 // is looked up with Has; a false answer returns RequiredNotSet), and an error found in a nested
-// message - inside the Range callbacks too - is never dropped.
+// message - inside the Range callbacks too - is never dropped. A populated field is passed over
+// without a nested check only if it holds no messages at all (the three `return true` of the Range
+// callback): whether the nested message type declares required fields of its own is no reason,
+// since a field further down may (the table-driven path's needsInitCheck is transitive; C08).
 //
-// @ props C10
+// @ props C10 C08
 // @ mode int
 // @ nopanic
 // @ guard-errors
 // @ pure protoreflect.Message.Has
 // @ site return errors.RequiredNotSet(string(fd.FullName())): !m.Has(fd)
+// @ pure protoreflect.FieldDescriptor.IsMap protoreflect.FieldDescriptor.IsList protoreflect.FieldDescriptor.Message protoreflect.FieldDescriptor.MapValue
+// @ site return true: (fd.IsMap() && !fd.IsList() && fd.MapValue().Message() == nil) || ((fd.IsList() || !fd.IsMap()) && fd.Message() == nil)
 func contract_checkInitializedSlow(m protoreflect.Message) (err error) {
 	modifiesAll()
 	return
